@@ -312,6 +312,17 @@ class World:
                 return z3.Or(*[ex.eq(x, y) for y in items]) if items else z3.BoolVal(False)
         if isinstance(container, VObject) and container.cls == 'dict':
             return z3.BoolVal(interp.dict_key(x) in container.attrs)
+        if isinstance(container, VObject) and container.cls == 'set':
+            base, k = container.attrs['base'], container.attrs['k']
+            if base is None or T.int_val(k) == 0:
+                return z3.BoolVal(False)
+            # membership in {base[0], .., base[k-1]}: a fresh boolean with its two readings (witness / none equal)
+            m = T.fresh('member', z3.BoolSort())
+            w = T.fresh('w', T.IntS)
+            ex.assume(z3.Implies(m, z3.And(0 <= w, w < k, ex.eq(base._elem(w), x))))
+            ex.add_qhyp([base], lambda i: [(z3.And(z3.Not(m), 0 <= i, i < k), z3.Not(ex.eq(base._elem(i), x)))])
+            ex.member_witness = (m, w, x)
+            return m
         raise Unsupported('`in` on ' + container.kind)
 
     # ------------------------------------------------------------ attributes
@@ -573,6 +584,10 @@ class World:
                 return VTuple(cols)
             out = self.to_list(interp, args[0])
             return VList(out.segs, True)
+        if cls == 'py.set' and not args:
+            # a set filled by adding the elements of one sequence in order: represented by that sequence and the length of
+            # the prefix added so far (ghost representation, see contracts/rewriting.py normal_form)
+            return VObject('set', {'base': None, 'k': T.I(0)})
         if cls == 'py.slice':
             a = list(args) + [NONE] * (3 - len(args))
             if len(args) == 1:
@@ -611,6 +626,7 @@ class World:
         ('rigid.Diagram', 'caps'): 'rigid.caps',
         ('rigid.Id', 'id'): 'monoidal.Id.__init__',
         ('cat.Arrow', 'id'): 'cat.Id.__init__',
+        ('monoidal.Diagram', 'normalize'): 'rewriting.normalize',
         ('rigid.Diagram', 'fa'): 'rigid.Diagram.fa', ('rigid.Diagram', 'ba'): 'rigid.Diagram.ba',
         ('rigid.Diagram', 'fc'): 'rigid.Diagram.fc', ('rigid.Diagram', 'bc'): 'rigid.Diagram.bc',
         ('rigid.Diagram', 'fx'): 'rigid.Diagram.fx', ('rigid.Diagram', 'bx'): 'rigid.Diagram.bx',
@@ -646,6 +662,13 @@ class World:
                 return BUILTINS['list_index'](interp, recv, *args)
             if name == 'copy':
                 return recv
+        if isinstance(recv, VObject) and recv.cls == 'set' and name == 'add':
+            base, k = recv.attrs['base'], recv.attrs['k']
+            base = base if base is not None else getattr(ex, 'set_source', None)
+            if base is None or not z3.is_true(z3.simplify(ex.eq(base._elem(k), args[0]))):
+                raise Unsupported('set.add of a value that is not the next element of the sequence the set is filled from')
+            recv.attrs['base'], recv.attrs['k'] = base, z3.simplify(k + 1)
+            return NONE
         if isinstance(recv, VObject) and recv.cls == 'dict' and name == 'get':
             k = interp.dict_key(args[0])
             return recv.attrs.get(k, args[1] if len(args) > 1 else NONE)
